@@ -401,7 +401,7 @@ func main() {
 	for _, c := range corpus {
 		hcs = append(hcs, hc{asSet(mkLabels(c.s)), "corpus", c.name})
 	}
-	nh := f.Count(130, 1500)
+	nh := f.Count(130, 1200)
 	for i := 0; i < nh; i++ {
 		r := gen.Fork(f.Seed, i)
 		s, class := genHashSet(r, f.Tier)
